@@ -688,6 +688,8 @@ func (c *container) jsBody(op M) ([]json.RawMessage, error) {
 		return []json.RawMessage{str("RET = " + X + ".pop()")}, nil
 	case "jssetlen":
 		return []json.RawMessage{str(fmt.Sprintf("RET = (%s.length = %d)", X, int(op["n"].(float64))))}, nil
+	case "jssetlenv":
+		return append(append([]json.RawMessage{str("RET = (" + X + ".length = ")}, valParts...), str(")")), nil
 	case "callget":
 		return []json.RawMessage{str("RET = " + X + ".GetA()")}, nil
 	case "callset":
